@@ -419,3 +419,7 @@ func TestC03Concurrent(t *testing.T) {
 		Rule: "one pattern value and one bindings value shared by 4-16 goroutines matching different messages under the race detector; every goroutine's outcome equals the sequential one; non-trivial = >= 4 goroutines and >= 2 of them matched"},
 		genConc, checkConc)
 }
+
+func FuzzC03Pure(f *testing.F) {
+	ev.Fuzz(f, ev.Opts{Property: "C03", Name: "pure"}, genPure, checkPure)
+}
